@@ -27,10 +27,13 @@ Public API
         ``Exploration.complete`` is False.  While replaying a prefix the choice points must be
         the ones the parent run saw (same arity, same probabilities to 1e-12) -- otherwise
         ``HarnessError("HARNESS-NONDETERMINISM ...")``.
-    ``choose(probs, label="", values=None) -> int``
-        The primitive used by the seams: one choice point.  Zero-probability alternatives are
-        not alternatives; a single remaining alternative is *forced* (counted, does not consume
-        the prefix).  Returns the index into ``probs``.
+    ``choose(probs, label="", kind="choice") -> int``
+        The primitive used by the seams (and usable directly by a harness): one choice point.
+        Zero-probability alternatives are not alternatives; a single remaining alternative is
+        *forced* (counted in ``Path.forced``, does not consume the prefix).  Returns the index
+        into ``probs``.  ``probs`` are used as given (the caller normalises).
+    ``lattices`` (a ``Lattices``), ``active`` (bool), ``uncaptured(what)`` (used by the guards),
+    ``next_call_index(kind)``.
     ``record(kind, **data)``
         Attach a record (e.g. the arguments of ``multivariate_normal``) to the current path.
 
@@ -72,16 +75,28 @@ Public API
     ``(points, weights)`` (weights sum to 1; for a quadrature lattice they are the quadrature
     weights, for a probing lattice they are nominal and the caller must not interpret the
     path probability as a physical one):
-    ``"normal"(size, call_index) ``, ``"multivariate_normal"(mean, cov, size, call_index)``,
-    ``"uniform_array"(size, call_index)``.
+    ``"normal"(shape, call_index)`` -> points are flat arrays of prod(shape) standard-normal
+    answers (the generator returns ``loc + scale * point``); ``call_index`` counts the
+    ``normal`` calls of the current run from 0;
+    ``"multivariate_normal"(mean, cov, shape, (call_index, row))`` -> points are the returned
+    rows themselves (one choice point per row of ``size``);
+    ``"uniform_array"(shape, call_index)`` -> points are flat arrays in [0, 1).
+    Defaults: a single point (0 / the mean / 0.5), i.e. no branching.
 
-``owned_randomness(controller, choices_mode="multiset", shuffle_mode="permutations")``
-    Context manager patching ALL seams of the current process: ``Config.rng`` (data descriptor
-    on the class: also configs created before the context answer with the controlled
-    generator), ``numpy.random.default_rng`` (records the requested seed),
-    ``random.choices`` / ``random.random`` / ``random.uniform`` / ``random.seed`` (no-op,
-    recorded), ``random.Random`` (only ``shuffle`` is served), ``os.urandom`` (deterministic
-    counter).  UNCAPTURED guard: every other real entry point (``random.randint`` ...,
+``owned_randomness(controller, choices_mode="multiset", shuffle_mode="permutations", module_random="guard", rng_size_mode="sequence")``
+    Context manager patching ALL seams of the current process: ``Config.rng`` and
+    ``Config._random`` (data descriptors on the class: also configs created before the context
+    answer with the controlled objects), ``numpy.random.default_rng`` (records the requested
+    seed), ``random.Random`` (a ``ControlledRandom``: ``choices`` / ``random`` / ``uniform`` /
+    ``shuffle`` / ``seed`` are served -- this covers ``Config._random.choices`` of the Fock-space
+    categorical sampling and the shuffle of ``Result.samples``), ``random.seed`` (no-op,
+    recorded), ``os.urandom`` (deterministic counter).  The module-level
+    ``random.choices`` / ``random.random`` / ``random.uniform`` (global random state) are an
+    UNCAPTURED guard by default (``module_random="guard"``); ``module_random="own"`` serves
+    them as choice points (for trees that still sample from the global state).
+    ``rng_size_mode`` is the ``size_mode`` of every ``ControlledRNG`` handed out (``Config.rng``
+    and ``default_rng``).  Yields the ``ControlledRNG`` that answers for ``Config.rng``.
+    UNCAPTURED guard: every other real entry point (``random.randint`` ...,
     ``numpy.random.Generator`` / ``RandomState`` / legacy ``numpy.random.*`` functions,
     ``random.SystemRandom``) raises ``HarnessError("HARNESS-UNCAPTURED ...")`` inside the
     context, and the controller re-raises it at the end of the run even if library code
@@ -597,16 +612,16 @@ def _validate_p(p, n):
     by its last entry)."""
     p = np.array(p, dtype=np.float64, copy=True)
     if p.ndim != 1:
-        raise ValueError("'p' must be 1-dimensional")
+        raise ValueError("p must be 1-dimensional")
     if p.size != n:
         raise ValueError("a and p must have same size")
     if np.isnan(p).any():
-        raise ValueError("probabilities contain NaN")
+        raise ValueError("Probabilities contain NaN")
     if (p < 0).any():
-        raise ValueError("probabilities are not non-negative")
+        raise ValueError("Probabilities are not non-negative")
     atol = max(np.sqrt(np.finfo(np.float64).eps), 0.0)
     if abs(float(np.sum(p)) - 1.0) > atol:
-        raise ValueError("probabilities do not sum to 1")
+        raise ValueError("Probabilities do not sum to 1. See Notes section of docstring for more information.")
     return p / np.sum(p)
 
 
@@ -850,17 +865,77 @@ def _distinct_arrangements(items, cap):
     return [[groups[gi][0] for gi in arr] for arr in arrangements], 1.0 / len(arrangements)
 
 
+def _controlled_choices(ctl, label, mode, population, weights=None, cum_weights=None, k=1):
+    """random.choices / random.Random.choices as a (multiset- or sequence-valued) choice point."""
+    ctl._require_active(label)
+    population = list(population)
+    n = len(population)
+    if cum_weights is not None:
+        if weights is not None:
+            raise TypeError("Cannot specify both weights and cumulative weights")
+        cw = [float(c) for c in cum_weights]
+        w = [cw[0]] + [b - a for a, b in zip(cw, cw[1:])]
+    elif weights is None:
+        w = [1.0] * n
+    else:
+        w = [float(x) for x in weights]
+    if len(w) != n:
+        raise ValueError("The number of weights does not match the population")
+    total = math.fsum(w)
+    if total <= 0.0:
+        raise ValueError("Total of weights must be greater than zero")
+    if not math.isfinite(total):
+        raise ValueError("Total of weights must be finite")
+    if any(x < 0 for x in w):
+        raise HarnessError("HARNESS-CHOICE %s called with a negative weight %r" % (label, w))
+    probs = [x / total for x in w]
+    ctl.record("choices", seam=label, n=n, k=k, weights=list(w))
+    if k == 0:
+        return []
+    if k == 1:
+        return [population[ctl.choose(probs, label=label)]]
+    alts = (multiset_alternatives if mode == "multiset" else sequence_alternatives)(probs, k, ctl.max_alternatives)
+    i = ctl.choose([a[1] for a in alts], label="%s[k=%d,%s]" % (label, k, mode), kind="multi")
+    return [population[j] for j in alts[i][0]]
+
+
 class ControlledRandom:
     """Stand-in for random.Random(seed) inside owned_randomness."""
 
     _ctl = None
     _shuffle_mode = "permutations"
+    _choices_mode = "multiset"
 
     def __init__(self, seed=None):
         self.seed_value = seed
         ctl = type(self)._ctl
         if ctl is not None and ctl.active:
             ctl.record("random.Random", seed=seed)
+
+    def __deepcopy__(self, memo):
+        return self
+
+    def __copy__(self):
+        return self
+
+    def seed(self, a=None, version=2):
+        self.seed_value = a
+        ctl = type(self)._ctl
+        if ctl is not None and ctl.active:
+            ctl.record("random.Random.seed", seed=a)
+
+    def choices(self, population, weights=None, *, cum_weights=None, k=1):
+        return _controlled_choices(type(self)._ctl, "random.Random.choices", type(self)._choices_mode, population, weights, cum_weights, k)
+
+    def random(self):
+        ctl = type(self)._ctl
+        ctl._require_active("random.Random.random")
+        return SymU(ctl, 0.0, 1.0, label="random.Random.random")
+
+    def uniform(self, a, b):
+        ctl = type(self)._ctl
+        ctl._require_active("random.Random.uniform")
+        return SymU(ctl, 0.0, 1.0, label="random.Random.uniform") * (float(b) - float(a)) + float(a)
 
     def shuffle(self, x):
         ctl = type(self)._ctl
@@ -907,7 +982,7 @@ class _GuardClass:
 
 
 @contextlib.contextmanager
-def owned_randomness(controller, choices_mode="multiset", shuffle_mode="permutations"):
+def owned_randomness(controller, choices_mode="multiset", shuffle_mode="permutations", module_random="guard", rng_size_mode="sequence"):
     import os
     import random as _random
 
@@ -915,7 +990,7 @@ def owned_randomness(controller, choices_mode="multiset", shuffle_mode="permutat
     from piquasso.api import config as pq_config
 
     ctl = controller
-    config_rng = ControlledRNG(ctl, name="Config.rng")
+    config_rng = ControlledRNG(ctl, name="Config.rng", size_mode=rng_size_mode)
     saved = []
 
     def patch(obj, name, value):
@@ -926,7 +1001,7 @@ def owned_randomness(controller, choices_mode="multiset", shuffle_mode="permutat
     def default_rng(seed=None):
         if ctl.active:
             ctl.record("default_rng", seed=seed)
-        return ControlledRNG(ctl, name="default_rng(%s)" % _short(seed), seed=seed)
+        return ControlledRNG(ctl, name="default_rng(%s)" % _short(seed), seed=seed, size_mode=rng_size_mode)
 
     patch(npr, "default_rng", default_rng)
 
@@ -939,38 +1014,9 @@ def owned_randomness(controller, choices_mode="multiset", shuffle_mode="permutat
 
     patch(pq_config.Config, "rng", property(_get, _set))
 
-    # 3. module-level `random`
+    # 3. module-level `random` (global state: served only with module_random="own")
     def choices(population, weights=None, *, cum_weights=None, k=1):
-        ctl._require_active("random.choices")
-        population = list(population)
-        n = len(population)
-        if cum_weights is not None:
-            if weights is not None:
-                raise TypeError("Cannot specify both weights and cumulative weights")
-            cw = [float(c) for c in cum_weights]
-            w = [cw[0]] + [b - a for a, b in zip(cw, cw[1:])]
-        elif weights is None:
-            w = [1.0] * n
-        else:
-            w = [float(x) for x in weights]
-        if len(w) != n:
-            raise ValueError("The number of weights does not match the population")
-        total = math.fsum(w)
-        if total <= 0.0:
-            raise ValueError("Total of weights must be greater than zero")
-        if not math.isfinite(total):
-            raise ValueError("Total of weights must be finite")
-        if any(x < 0 for x in w):
-            raise HarnessError("HARNESS-CHOICE random.choices called with a negative weight %r" % (w,))
-        probs = [x / total for x in w]
-        ctl.record("random.choices", n=n, k=k, weights=list(w))
-        if k == 0:
-            return []
-        if k == 1:
-            return [population[ctl.choose(probs, label="random.choices")]]
-        alts = (multiset_alternatives if choices_mode == "multiset" else sequence_alternatives)(probs, k, ctl.max_alternatives)
-        i = ctl.choose([a[1] for a in alts], label="random.choices[k=%d,%s]" % (k, choices_mode), kind="multi")
-        return [population[j] for j in alts[i][0]]
+        return _controlled_choices(ctl, "random.choices", choices_mode, population, weights, cum_weights, k)
 
     def random_random():
         ctl._require_active("random.random")
@@ -984,6 +1030,10 @@ def owned_randomness(controller, choices_mode="multiset", shuffle_mode="permutat
         if ctl.active:
             ctl.record("random.seed", seed=a)
 
+    if module_random != "own":
+        choices = _Uncaptured(ctl, "the module-level random.choices (global random state)")
+        random_random = _Uncaptured(ctl, "the module-level random.random (global random state)")
+        random_uniform = _Uncaptured(ctl, "the module-level random.uniform (global random state)")
     patch(_random, "choices", choices)
     patch(_random, "random", random_random)
     patch(_random, "uniform", random_uniform)
@@ -991,8 +1041,19 @@ def owned_randomness(controller, choices_mode="multiset", shuffle_mode="permutat
     for name in _RANDOM_GUARDED:
         if hasattr(_random, name):
             patch(_random, name, _Uncaptured(ctl, "random.%s" % name))
-    rnd_cls = type("ControlledRandom", (ControlledRandom,), {"_ctl": ctl, "_shuffle_mode": shuffle_mode})
+    rnd_cls = type("ControlledRandom", (ControlledRandom,), {"_ctl": ctl, "_shuffle_mode": shuffle_mode, "_choices_mode": choices_mode})
     patch(_random, "Random", rnd_cls)
+    # Config._random (random.Random owned by the config, shared by its copies): data descriptor,
+    # so that configs created before the context are owned as well
+    config_random = rnd_cls("Config._random")
+
+    def _get_r(self):
+        return config_random
+
+    def _set_r(self, value):
+        self.__dict__["_random"] = value
+
+    patch(pq_config.Config, "_random", property(_get_r, _set_r))
     patch(_random, "SystemRandom", type("SystemRandomGuard", (_GuardClass,), {"_ctl": ctl, "_what": "random.SystemRandom"}))
 
     # 4. os.urandom: deterministic counter
